@@ -276,30 +276,56 @@ class CHECK(core.Check):
     PROPERTY = "C22"
     LEAN_MODULES = ["IofloModel.Props.C22"]
     ENGINE = "logrules"
-    N_QUICK = 500
+    N_QUICK = 300
     N_THOROUGH = 12000
     N_SEARCH = 1500
-    RULE = ("histories: 1-3 shares, 1-4 logs (every rule; field selections: default-all / subset / absent field; one or "
-            "two loggees), ticks with writes placed before and after the logger run of the tick, same-value and "
-            "unstamped writes, logger periods 1-3 ticks, restarts, optional None store stamp, pre-existing files; "
-            "plus a malformed stream (controls out of order, deck without fields, no loggees) and all small "
-            "single-log histories over {write 0, write 1, advance, run}; non-trivial = some log wrote a record; "
-            "distinct by case content")
-    TRUSTED = ["correspondence: real ioflo Logger/Log/Store/Share objects on a scratch directory vs the Lean driver "
-               "'logrules' on the same history; per-control outcome (ok / exception name) and final file contents "
-               "compared line by line",
-               "environment assumption of the update/once theorems: the store stamp is numeric and never decreases",
+    RULE = ("histories: 1-3 shares + a queue share, 1-4 logs (every rule; field selections: default-all / subset / "
+            "absent field; one to three loggees), ticks with writes placed before and after the logger run of the tick, "
+            "same-value and unstamped writes, in-place list appends, logger periods 1-3 ticks, restarts with writes while "
+            "stopped, optional None store stamp, pre-existing files; every 6th case from a malformed stream (controls "
+            "out of order, deck without fields, no loggees); plus all single-log histories of length <= 3 (quick) / <= 5 "
+            "(thorough) over {write 0, write 1, advance, run} for once/always/update/change and of length <= 2 / <= 4 "
+            "over {append x2, push mapping, push non-mapping, advance, run} for streak+deck; non-trivial = some log "
+            "wrote a record; distinct by case content")
+    TRUSTED = ["correspondence: real ioflo House/Store/Share/Logger/Log objects writing under /verif/.scratch/log/<pid> vs "
+               "the Lean driver 'logrules' on the same history; per-control outcome (ok / exception name) and the final "
+               "contents of every log file compared line by line (os.fsync is stubbed: durability is C23)",
+               "the tree is /repo + fixes/D51-log-change-restart.patch + fixes/D52-log-change-alias.patch (the model "
+               "describes the repaired change rule)",
+               "environment assumptions of the history theorems: controls follow the runner protocol (RUN only to a "
+               "started/running logger), the store stamp is numeric and never decreases, shares are not stamped in "
+               "the future, loggee tags are distinct",
                "CPython: '%s' formatting of int/str/bool/None/list and of dyadic floats; text-file append semantics"]
-    PARTIAL = ["C22_update_partial: holds for histories without a stamped write to a loggee after the log already "
-               "logged at the same store stamp (D12); C22_update_counterexample shows the full statement fails",
-               "C22_change_partial: holds within one START..STOP session; a restart rebuilds the last values from the "
-               "shares (C22_change_restart_counterexample)",
-               "not modelled: aliasing of mutable list values between shares and Log.lasts, MutableMapping streaks, "
-               "field deletion, binary logs, IOError on open, rotation (C23)"]
-    TECHNIQUE = ("Lean 4 theorems by induction over histories with invariants (refinement of an idealised logger) + "
-                 "differential correspondence against the running code")
-    LEVEL_TEXT = ""
-    LEVEL_NOTE = ""
+    PARTIAL = ["C22_update_partial: the update rule equals the ideal dirty-flag logger only for histories without a "
+               "stamped write to a loggee after the log already logged at the same store stamp (region "
+               "Ioflo.LogRules.lateWrite, known finding D12); C22_update_counterexample proves the full statement false",
+               "C22_streak_fifo_once: for a streak log whose field list names the queue field and histories that only "
+               "append to it (no write/poke of that field); default-field streaks, non-list values (logged on every run) "
+               "and MutableMapping queues are covered by the correspondence only / not modelled",
+               "theorems are about a logger with ONE log (S1); loggers with several logs are tied to the code by the "
+               "correspondence only (C22_single_log_refines links the two models); a change log that watches a list "
+               "which a streak log of the same logger drains between prepare and the first record writes a duplicate "
+               "first record (not generated, not covered)",
+               "not modelled: field deletion from a share, binary logs, IOError on open, tuple values, rotation (C23)"]
+    TECHNIQUE = ("Lean 4 theorems by induction over histories with invariants: refinement of an idealised logger "
+                 "(dirty flag / last logged values) for update and change, conservation laws for streak and deck, "
+                 "counting for once/always, a file-shape invariant for the header; + differential correspondence "
+                 "against the running code and an independent Python reference of the property text as oracle")
+    LEVEL_TEXT = ("Proof on the model (one log per logger, all histories that follow the runner protocol): never writes "
+                  "nothing (unconditional); once exactly one record; always one per run showing the current values; "
+                  "change: file equal to that of the ideal logger that compares with the last logged values, restarts "
+                  "included (FULL, for the code with fix patches D51+D52); update: equal to the ideal dirty-flag logger "
+                  "outside the D12 region (C22_update_partial) and a kernel-checked counterexample inside it "
+                  "(C22_update_counterexample, known finding D12); deck: logged ++ pending = initial ++ pushed mappings "
+                  "for every history, deck empty after a run; streak: the same for append-only histories on a named "
+                  "queue field; exactly one header at the start of a new file, none added to an existing one. The "
+                  "model is tied to logging.py by running real Logger/Log objects and the Lean driver on the same "
+                  "histories (multi-log loggers, malformed control sequences and exception outcomes included).")
+    LEVEL_NOTE = ("Trusted: Lean kernel; axioms propext, Classical.choice, Quot.sound; the hand transcription of "
+                  "logging.py (Log rules, prepare, reopen, runner) validated only by the correspondence runs; the "
+                  "values are ints/bools/None/short strings/lists of those, stamps multiples of 1/8 s; os.fsync stubbed; "
+                  "theorems assume protocol-respecting controls, a numeric non-decreasing store stamp and distinct "
+                  "loggee tags. update is PARTIAL (D12).")
 
     # ---- protocol
     def requests(self, case):
@@ -637,6 +663,8 @@ class CHECK(core.Check):
         """every history of length <= L over {write 0, write 1, advance, run} after a START at stamp 0, one share with
         one field, one log, for each of the value-driven rules"""
         L = 5 if tier == "thorough" else 3
+        if tier == "quick" and os.environ.get("VERIF_FAST"):
+            L = 2
         alpha = ["write 0 value i0", "write 0 value i1", "adv 1", "ctl run"]
         for rule in ("once", "always", "update", "change"):
             for n in range(L + 1):
@@ -644,7 +672,7 @@ class CHECK(core.Check):
                     yield {"kind": "exh", "logs": [{"rule": rule, "base": "e", "old": None, "loggees": [["x", 0, []]]}],
                            "ops": ["stamp 0", "poke 0 value i0", "ctl start"] + list(seq) + ["ctl stop"]}
         qa = ["append 3 q i1", "append 3 q i2", "push 3 Mp=i1", "push 3 Oi7", "adv 1", "ctl run"]
-        for n in range((4 if tier == "thorough" else 3) + 1):
+        for n in range((4 if tier == "thorough" else 2) + 1):
             for seq in itertools.product(qa, repeat=n):
                 yield {"kind": "exh", "logs": [{"rule": "streak", "base": "s", "old": None, "loggees": [["x", 3, ["q"]]]},
                                                {"rule": "deck", "base": "d", "old": None, "loggees": [["x", 3, ["p"]]]}],
